@@ -178,6 +178,13 @@ def slice(ctx: fw.Ctx) -> fw.Outcome:
         src.tracks = [gen.TrackSrc(0, 3, [gen.NoteGroup(10 * k, {l: v for l, v in enumerate(pat) if v is not None}) for k, pat in enumerate(order)], [], [])]
         pp = ic.prof(garbage=0.0, exotic_pad=0.0, exotic_digits=0.0)
         cases.append((src, gen.render(src, rng, pp, garbage=False)))
+    # tempi so fast that a short sustain lasts less than a microsecond: the end time is still the tempo-map time of the end tick
+    for bpm in (999999999, 960000000, 500000001):
+        src = gen.rand_src(rng, p)
+        src.res, src.meta["resolution"] = 192, 192
+        src.tempo, src.tss, src.anchors, src.gevents, src.unknown = [(0, bpm)], [(0, 4, None)], [], [], []
+        src.tracks = [gen.TrackSrc(0, 3, [gen.NoteGroup(10 * k, {k % 5: 1 + k % 4, (k + 1) % 5: k % 3}) for k in range(12)], [], [])]
+        cases.append((src, gen.render(src, rng, ic.prof(garbage=0.0, exotic_pad=0.0, exotic_digits=0.0), garbage=False)))
     if ctx.tier == "thorough":
         # all 3^5 − 1 present/zero/non-zero patterns
         for pat in itertools.product((None, 0, 1), repeat=5):
